@@ -81,6 +81,10 @@ import HexVerif.X.Sem
     GLOBAL CONSTANTS (`val n = e`) are included: `ConstProp`'s table is `G.rho` (= what `X.bindGlobals`
     computes), array lengths may be constants, and a call through a constant `< 3` is the system call
     with that number (`execS_valcall`).
+    CALLS INSIDE ACTUALS: (V3) calls of pure functions anywhere in the actuals of a call statement or
+    of a call that is a whole right-hand side (`exec_usercallP`: the actuals with calls are evaluated
+    first and parked in temporaries, as `genCallActuals` does); (V2 and V3) one call - ANY callee - as
+    the first actual next to constants (`putval(rem(w, 256))`, `argsOK_first`).
   Open: string literals, local `val`s, calls of impure procedures in operands (X leaves the order open only if the other operand
   is constant), calls inside actuals, `val`/array declarations and formals, subscripts and strings;
   replacing the reflective checks by a proof that they always succeed.
@@ -317,7 +321,7 @@ theorem C01_v2_partial (P : X.Program) (inp : X.Input) (n : Nat) (β : X.Behavio
 /-- `var g;
      func sum(val n) is var t; if n = 0 then return 1 else { t := sum(n - 1); return t + n }
      proc put2(val a, val b) is { 1(a, 0); 1(b, 0) }
-     proc main() is var r; { r := sum(4); g := r + 55; put2(g, g + 1); 0(r) }` -/
+     proc main() is var r; { r := sum(4); g := r + 55; put2(g, g + 1); put2(sum(2), 66); 0(r) }` -/
 def demoV2 : X.Program :=
   { globals := [.var "g"],
     procs := [
@@ -326,12 +330,13 @@ def demoV2 : X.Program :=
       { isFunc := false, name := "put2", formals := [.val "a", .val "b"], locals := [],
         body := .seq [.syscall 1 [.name "a", .num 0], .syscall 1 [.name "b", .num 0]] },
       { isFunc := false, name := "main", formals := [], locals := [.var "r"],
-        body := .seq [.assign "r" (.call "sum" [.num 4]), .assign "g" (.bin .plus (.name "r") (.num 55)), .call "put2" [.name "g", .bin .plus (.name "g") (.num 1)], .syscall 0 [.name "r"]] }] }
+        body := .seq [.assign "r" (.call "sum" [.num 4]), .assign "g" (.bin .plus (.name "r") (.num 55)), .call "put2" [.name "g", .bin .plus (.name "g") (.num 1)], .call "put2" [.call "sum" [.num 2], .num 66], .syscall 0 [.name "r"]] }] }
 
 /-! Non-vacuity: `demoV2` (a recursive function, a two-parameter procedure, a global) is in the
-    class, has a defined behaviour (two characters written, exit value 11) and compiles. -/
+    class - with a call as the first actual of a call -, has a defined behaviour (four characters
+    written, exit value 11) and compiles. -/
 example : C01s.v2Ok demoV2 = true := by decide +kernel
-example : behaviourIs (X.run demoV2 ⟨[], fun _ => []⟩ 1000) 11 2 = true := by decide +kernel
+example : behaviourIs (X.run demoV2 ⟨[], fun _ => []⟩ 1000) 11 4 = true := by decide +kernel
 example : ∃ img, Xcmp.compile demoV2 = .ok img := by
   cases h : Xcmp.compile demoV2 with
   | ok img => exact ⟨img, rfl⟩
